@@ -102,19 +102,11 @@ Theorem sweep3d_ok_true (tt : arr T) (ttsgn : arr Z) (slow : arr T) (dz dx dy : 
 Proof.
   intros Hnz Hnx Hny Htt Hslow Hsgn.
   assert (H0 : shp nz nx ny grad (tt, ttsgn)) by (split; assumption).
-  unfold sweep3d_ok.
-  repeat lazymatch goal with
-  | |- true = true => reflexivity
-  | |- andb _ _ = true => apply andb_true_intro; split
-  | |- obD false _ = true => reflexivity
-  | |- for_list_ok _ _ _ _ = true =>
-      apply for_list_ok_inv with (P := shp nz nx ny grad);
-      [ shp_solve | intros ? ? ? ?; cbv beta; split; [ shp_solve | ] ]
-  | |- sweep_ok _ _ _ _ _ _ _ _ _ _ _ _ _ _ _ _ _ _ _ = true =>
-      range_hyps;
-      match goal with Hs : shp _ _ _ _ ?s |- sweep_ok _ _ (fst ?s) _ _ _ _ _ _ _ _ _ _ _ _ _ _ _ _ = true =>
-        destruct Hs as [Hs1 Hs2]; apply sweep_ok_true; auto; unfold dirp; lia end
-  end.
+  cbv beta delta [sweep3d_ok].
+  ok_walk_gen (shp nz nx ny grad) shp_solve
+    ltac:(range_hyps;
+          match goal with Hs : shp _ _ _ _ ?s |- sweep_ok _ _ (fst ?s) _ _ _ _ _ _ _ _ _ _ _ _ _ _ _ _ = true =>
+            destruct Hs as [Hs1 Hs2]; apply sweep_ok_true; auto; unfold dirp; lia end).
 Qed.
 End S3.
 
